@@ -90,6 +90,7 @@ static void wireSend()
 // hooks called by the C models of StreamAckManager::send / sendPacketCompat (c08_client.c)
 extern "C" void vp_c08_sm_send(QXmppTask<QXmpp::SendResult> *ret, QXmppPacket *p) { wireSend(); new (ret) QXmppTask<QXmpp::SendResult>(p->task()); }
 extern "C" bool vp_c08_sm_send_compat(QXmppPacket *) { wireSend(); return vp_bool(); }
+extern "C" void vp_c08_set_link(unsigned mode, bool encrypted);
 extern "C" void vp_c08_elem_default(QXmppElement *self) { new (self) QXmppElement(); }
 static void keepHooks() { if (vp_c08_false()) { vp_c08_sm_send(nullptr, nullptr); vp_c08_sm_send_compat(nullptr); vp_c08_elem_default(nullptr); } }
 static int nsent() { int n = g_extra; for (int i = 0; i < NSRC; i++) { if (g_has[i]) n++; } return n; }
@@ -133,6 +134,11 @@ struct World {
         new (&cd->extensions) QList<QXmppClientExtension *>();
         cd->stream = stream;
         cd->encryptionExtension = nullptr;           // no end-to-end encryption extension registered (outside: e2ee path)
+        // a CONNECTED client: with TLS required the session only exists on an encrypted link (before that, nothing - not even an
+        // error reply - is sent: C04's subject)
+        const unsigned mode = vp_u8(); const bool enc = vp_bool();
+        vp_assume(mode <= QXmppConfiguration::TLSRequired && !(mode == QXmppConfiguration::TLSRequired && !enc));
+        vp_c08_set_link(mode, enc);
         lastIn0 = vp_u32(); vp_assume(lastIn0 < 0x7fffffff);
         sd->streamAckManager.m_lastIncomingSequenceNumber = lastIn0;
         sd->streamAckManager.m_enabled = vp_bool();
@@ -169,9 +175,9 @@ struct World {
     }
 };
 // per-branch cases: K = (number of mock extensions, child shape)
-#define CLI_CASES 5
-static constexpr unsigned CLI_NEXT[8] = { 0, 0, 1, 2, 2, 0, 0, 0 };
-static constexpr unsigned CLI_SHAPE[8] = { SH_NONE, SH_PING, SH_PING, SH_PING, SH_VERSION, SH_NONE, SH_NONE, SH_NONE };
+#define CLI_CASES 3
+static constexpr unsigned CLI_NEXT[8] = { 0, 2, 1, 0, 0, 0, 0, 0 };
+static constexpr unsigned CLI_SHAPE[8] = { SH_NONE, SH_PING, SH_VERSION, SH_NONE, SH_NONE, SH_NONE, SH_NONE, SH_NONE };
 
 static void checkRequestAnswered(const World &w, const SymIq &q, int own)
 {
@@ -214,7 +220,7 @@ extern "C" void h_cli_inject_e2ee_resp() { internAttrs(); keepHooks(); DISPATCH_
 // injectIq of something that is not an <iq/>: nothing happens
 template<unsigned TY, unsigned K> static void injectNoIqCase()
 {
-    if (K >= CLI_CASES || K < 2) return;
+    if (K != 1) return;
     SymIq q; symIq(q, TY, CLI_SHAPE[K], true, L("message"));
     World w(CLI_NEXT[K], q);
     w.client->injectIq(q.iq, std::nullopt);
